@@ -524,7 +524,8 @@ def oracle(case):
     if exposed is not None:
         return "delimiter-exposed:%02x" % exposed, "value %r emitted as %r: octet %#x outside an escaped form" % (vbytes, rraw, exposed)
     if got != vbytes:
-        return "value-changed", "value %r emitted as %r which denotes %r" % (vbytes, rraw, got)
+        return "value-changed", "%s(%s): value %r (utf-8 octets %r) emitted as %r which denotes %r" % (
+            api, "response configuration %r" % (case.get("resp"),) if api != "make_cookie" else "", value, vbytes, rraw, got)
     deleting = value is None
     secs = 0 if deleting else max_age_seconds(case.get("max_age"))
     want = {}
@@ -920,6 +921,7 @@ ORACLE_ONLY = [
     "webob.cookies:Cookie.serialize", "webob.cookies:Cookie.values", "webob.cookies:RequestCookies.items",
     "webob.cookies:RequestCookies.keys", "webob.cookies:RequestCookies.get", "webob.cookies:RequestCookies.__contains__",
     "webob.cookies:RequestCookies.__len__", "webob.request:BaseRequest.cookies", "webob.response:Response.headerlist",
+    "webob.response:Response.delete_cookie", "webob.response:Response.charset",
 ]
 
 
